@@ -92,4 +92,45 @@ def handleAsm : List String → String
     | _, _, _ => "bad-op"
   | _ => "bad-op"
 
+def encScope : PatScope → String
+  | .func => "func" | .result => "result" | .arg i => s!"arg{i}"
+
+def encBodyOp : BodyOp → String
+  | .argPre i r => s!"pre{i}:{encRhs r}"
+  | .resPre c => s!"rpre:{c}"
+  | .call s => s!"call:{encCallShape s}"
+  | .errorPattern sc => s!"pattern:{encScope sc}"
+  | .argPost i p => s!"post{i}:{encPost p}"
+  | .resPost c => s!"rpost:{c}"
+  | .conv c => s!"conv:{encConv c}"
+  | .ret r => s!"ret:{encRet r}"
+
+def encArgPlanL (l : Lang) (tbl : List Entry) (d : ArgDesc) : String :=
+  let idx := lookupStmts tree (d.key vocab)
+  let p := assembleArgL l d (selectEntry tbl tree (d.key vocab))
+  s!"e={encOpt idx} proto={encList encProto p.proto} pre={encList encRhs p.pre} call={encCall p.call} post={encList encPost p.post}"
+
+/-- `asmx <c|x> <forceWrapper externC hasPattern hasSplicer as 4 bits> <7 flag bits> <res desc> <arg desc>...`
+    -> the `asm` reply computed by `assembleCL` for that language's table, preceded by
+    `need=<bool> body=<ops>` -/
+def handleAsmX : List String → String
+  | lang :: opts :: flags :: res :: args =>
+    match opts.toList.map (· == '1'), flags.toList.map (· == '1'), decArg res, args.mapM decArg with
+    | [fw, ec, hp, hs], [m, c, d, s, k, f, ds], some r, some as =>
+      let l : Lang := if lang == "c" then .c else .cxx
+      let tbl := if lang == "c" then entriesC else entries
+      let fd : FuncDesc := ⟨m, c, d, s, k, f, r, ds, as⟩
+      let o : FuncOpts := ⟨fw, ec, hp, hs⟩
+      let w := assembleCL l vocab tbl tree fd
+      let ridx := lookupStmts tree (fd.resKey vocab)
+      let re := selectEntry tbl tree (fd.resKey vocab)
+      let need := needWrapperOf l o vocab tbl tree fd
+      let body := bodyOf w re (if hp then some (patScope fd) else none)
+      let th := match w.this with | some ⟨true⟩ => "const" | some ⟨false⟩ => "mut" | none => "-"
+      let rp := re.bufArgs.map (decodeProto false re)
+      let head := s!"need={need} body={encList encBodyOp body} this={th} res: e={encOpt ridx} call={encCallShape w.res.call} conv={encConv w.res.conv} caps={w.res.setCapsule} sback={w.res.structBack} clear={w.res.clearSelf} ret={encRet w.res.ret} rproto={encList encProto rp} tail={encList encProto w.res.protoTail}"
+      " | ".intercalate (head :: as.map (encArgPlanL l tbl))
+    | _, _, _, _ => "bad-op"
+  | _ => "bad-op"
+
 end Driver
